@@ -564,6 +564,11 @@ def build(ast, world: World):
         cls = world.classes[ast[1]]
         params = tuple(build(a, world) for a in ast[2:])
         return cls[params if len(params) != 1 else params[0]]
+    if k == 'gen2':
+        # re-subscription of a partially bound generic that is itself a root: refs[name][params]
+        cls = world.refs[ast[1]]
+        params = tuple(build(a, world) for a in ast[2:])
+        return cls[params if len(params) != 1 else params[0]]
     args = [build(a, world) for a in ast[1:]]
     if k == 'list':
         return list[args[0]]
@@ -797,8 +802,8 @@ def subst(ast, binding):
         return ['dl', [[n, subst(a, binding)] for (n, a) in ast[1]]]
     if ast[0] == 'ann':
         return ['ann', subst(ast[1], binding), ast[2]]
-    if ast[0] == 'gen':
-        return ['gen', ast[1]] + [subst(a, binding) for a in ast[2:]]
+    if ast[0] in ('gen', 'gen2'):
+        return [ast[0], ast[1]] + [subst(a, binding) for a in ast[2:]]
     if ast[0] == 'tagged':
         return ast[:3] + [subst(a, binding) for a in ast[3:]]
     return [ast[0]] + [subst(a, binding) for a in ast[1:]]
@@ -869,6 +874,10 @@ ALL_KINDS = ['tvar', 'tagged', 'list', 'set', 'vtuple', 'tuple', 'dict', 'tlist'
 
 
 def gen_type(rng, world: World, kinds, scalars, depth=0, max_depth=3, top=True, allow_literals=None):
+    return normalise_unions(_gen_type(rng, world, kinds, scalars, depth, max_depth, top, allow_literals))
+
+
+def _gen_type(rng, world: World, kinds, scalars, depth=0, max_depth=3, top=True, allow_literals=None):
     """
     Random type AST.  `kinds` is the enabled subset of ALL_KINDS, `scalars` the enabled leaf names.
     Tuple/dict literals only at top level or directly inside another literal (t.List[(a, b)] is
@@ -883,7 +892,7 @@ def gen_type(rng, world: World, kinds, scalars, depth=0, max_depth=3, top=True, 
     if depth >= max_depth or not avail or rng.random() < (0.25 + 0.15 * depth):
         return ['s', rng.choice(scalars)]
     k = rng.choice(avail)
-    sub = lambda lit=False: gen_type(rng, world, kinds, scalars, depth + 1, max_depth, False, lit)  # noqa
+    sub = lambda lit=False: _gen_type(rng, world, kinds, scalars, depth + 1, max_depth, False, lit)  # noqa
     if k in ('list', 'vtuple', 'tlist', 'tseq', 'tvtuple', 'opt', 'vol'):
         return [k, sub()]
     if k in ('set', 'tset', 'frozenset'):
@@ -926,7 +935,7 @@ def gen_type(rng, world: World, kinds, scalars, depth=0, max_depth=3, top=True, 
         cands = [n for (n, s) in world.class_specs.items() if s.get('tv')]
         name = rng.choice(cands)
         ntv = len(world.class_specs[name]['tv'])
-        return ['gen', name] + [gen_type(rng, world, [x for x in kinds if x not in ('tl', 'dl', 'gen')], scalars,
+        return ['gen', name] + [_gen_type(rng, world, [x for x in kinds if x not in ('tl', 'dl', 'gen')], scalars,
                                          depth + 1, max_depth, False, False) for _ in range(ntv)]
     if k == 'range':
         return ['range', ['s', rng.choice(['int', 'float'])]]
@@ -942,6 +951,33 @@ def gen_type(rng, world: World, kinds, scalars, depth=0, max_depth=3, top=True, 
     return ['s', rng.choice(scalars)]
 
 
+def _world_dependent(ast) -> bool:
+    return contains(ast, lambda a: a[0] in ('cls', 'gen', 'gen2', 'enum', 'ref'))
+
+
+def normalise_unions(ast):
+    """
+    typing caches `Annotated[...]`, `List[...]`, `Optional[...]` and friends by *equality* of their arguments,
+    and unions compare as sets: `List[Union[A, B]]` built after `List[Union[B, A]]` is the first object again.
+    For unions of scalars that conflation is the same in every world of one process; for unions of classes
+    defined per world it is not, and a freshly defined equivalent would come out in the other order.  So the
+    generator spells every union that mentions a class / enum / root in one canonical member order.
+    """
+    import json
+    k = ast[0]
+    if k in ('s', 'cls', 'enum', 'lit', 'ref', 'tv'):
+        return ast
+    if k == 'dl':
+        return ['dl', [[n, normalise_unions(a)] for (n, a) in ast[1]]]
+    if k == 'ann':
+        return ['ann', normalise_unions(ast[1]), ast[2]]
+    start = {'gen': 2, 'gen2': 2, 'tagged': 3}.get(k, 1)
+    kids = [normalise_unions(a) for a in ast[start:]]
+    if k in ('union', 'tagged') and any(_world_dependent(a) for a in kids):
+        kids = sorted(kids, key=lambda a: json.dumps(a, sort_keys=True))
+    return ast[:start] + kids
+
+
 def contains(ast, pred) -> bool:
     if pred(ast):
         return True
@@ -951,7 +987,7 @@ def contains(ast, pred) -> bool:
         return any(contains(a, pred) for (_, a) in ast[1])
     if ast[0] == 'ann':
         return contains(ast[1], pred)
-    start = {'gen': 2, 'tagged': 3}.get(ast[0], 1)
+    start = {'gen': 2, 'gen2': 2, 'tagged': 3}.get(ast[0], 1)
     return any(contains(a, pred) for a in ast[start:])
 
 
